@@ -16,7 +16,7 @@ EXTENDS SegDBOps, TLC, Json
 CONSTANTS Kind,      \* "p" path-segment DB, "b" beacon DB
           MaxOps,    \* history length
           Gen,       \* TRUE: print every complete history
-          Alphabet,  \* "small" | "large"
+          Alphabet,  \* "small" | "large" | "nq" (next-query operations only, all keys of NQPairs)
           Tx         \* TRUE: transactions of the path DB (begin / commit / rollback) are part of the alphabet
 
 VARIABLES store, nq, hist,
@@ -73,7 +73,11 @@ InsArgs == IF Kind = "p"
 DelArgs == IF Alphabet = "small" THEN {<<1, 64>>, <<1, 2>>, <<3, 64>>}
            ELSE {<<1, 64>>, <<1, 2>>, <<1, 1>>, <<3, 64>>}
 Nows == IF Alphabet = "small" THEN {U, 2 * U + 1} ELSE {U, U + 1, 2 * U + 1}
-NQArgs == {<<11, 12, 1>>, <<11, 12, 2>>}
+\* next-query keys that differ from each other in exactly one component (destination AS, destination
+\* ISD, source ISD): a partial key match in the implementation mixes them up
+NQPairs == {<<11, 12>>, <<11, 13>>, <<11, 22>>, <<21, 12>>}
+NQArgs == IF Alphabet = "nq" THEN {<<pr[1], pr[2], t>> : pr \in NQPairs, t \in {1, 2}}
+          ELSE {<<11, 12, 1>>, <<11, 12, 2>>, <<11, 13, 1>>}
 
 Prefix(a) == LET id == Pool[a[1]].id IN SubSeq(id, 1, MinI(a[2], Len(id)))
 
@@ -109,9 +113,9 @@ TxOp(name) ==
     /\ hist' = Append(hist, [op |-> name])
     /\ (Gen /\ Len(hist') = MaxOps) => PrintT(<<"SCN", ToJson(hist')>>)
 
-Ins == \E p \in 1..NPool, a \in InsArgs : Do(InsOp(p, a))
-Del == \E a \in DelArgs : Do(DelOp(a))
-Exp == \E now \in Nows : Do(ExpOp(now))
+Ins == Alphabet # "nq" /\ \E p \in 1..NPool, a \in InsArgs : Do(InsOp(p, a))
+Del == Alphabet # "nq" /\ \E a \in DelArgs : Do(DelOp(a))
+Exp == Alphabet # "nq" /\ \E now \in Nows : Do(ExpOp(now))
 NQ == Kind = "p" /\ Alphabet # "small" /\ \E a \in NQArgs : Do(NQOp(a))
 
 Next == Ins \/ Del \/ Exp \/ NQ \/ \E name \in {"txb", "txc", "txr"} : TxOp(name)
